@@ -61,12 +61,21 @@ class FakeStream:
         self.env.log("iter_end", self.rid)
 
 
+class FalsyItem(str):
+    """A channel item that is falsy, like a betterproto message holding only default values
+    (``bool(Msg()) is False``): it must be delivered like any other item."""
+
+    def __bool__(self) -> bool:
+        return False
+
+
 def make_tasks(env: Env, cfg: Dict[str, Any], ch: AsyncChannel) -> Dict[str, Any]:
     loop = asyncio.get_running_loop()
     tasks: Dict[str, asyncio.Task] = {}
 
     async def sender(sid: int, mode: str, n: int):
-        items = [f"s{sid}i{k}" for k in range(n)]
+        # every other item (starting with the first) is falsy
+        items = [FalsyItem(f"s{sid}i{k}") if k % 2 == 0 else f"s{sid}i{k}" for k in range(n)]
         if mode == "send":
             for it in items:
                 await env.point(f"s{sid}")
